@@ -389,6 +389,193 @@ where
                 drop(v);
                 nothing_live("clone + drop")?;
             }
+            _ if t.starts_with("pm:") => {
+                // methods the crate currently leaves to std's provided implementations (an override of any of them is
+                // an operation of this iterator like the others): same call on std's array iterator, same answer,
+                // same remaining elements, ledger balanced. `j`: the j-th item visited matches / breaks.
+                let spec = &t[3..];
+                let (name, j) = match spec.split_once('=') {
+                    Some((a, b)) => (a, b.parse::<usize>().map_err(|_| "harness: bad pm index".to_string())?),
+                    None => (spec, 0),
+                };
+                let (mut c, mut c2) = (0usize, 0usize);
+                let ids = self.ids.clone();
+                let idof = |s: usize| ids[s];
+                // by-reference methods: result (element or index), then the iterator goes on
+                let mut by_ref = true;
+                let mut got_el: Option<E> = None;
+                let mut want_el: Option<usize> = None;
+                let mut got_ix: Option<usize> = None;
+                let mut want_ix: Option<usize> = None;
+                match name {
+                    "find" => {
+                        got_el = self.it.find(|_| { c += 1; c == j + 1 });
+                        want_el = self.rf.find(|_| { c2 += 1; c2 == j + 1 });
+                    }
+                    "rfind" => {
+                        got_el = self.it.rfind(|_| { c += 1; c == j + 1 });
+                        want_el = self.rf.rfind(|_| { c2 += 1; c2 == j + 1 });
+                    }
+                    "position" => {
+                        got_ix = self.it.position(|e| { drop(e); c += 1; c == j + 1 });
+                        want_ix = self.rf.position(|_| { c2 += 1; c2 == j + 1 });
+                    }
+                    "rposition" => {
+                        got_ix = self.it.rposition(|e| { drop(e); c += 1; c == j + 1 });
+                        want_ix = self.rf.rposition(|_| { c2 += 1; c2 == j + 1 });
+                    }
+                    "any" => {
+                        got_ix = Some(self.it.any(|e| { drop(e); c += 1; c == j + 1 }) as usize);
+                        want_ix = Some(self.rf.any(|_| { c2 += 1; c2 == j + 1 }) as usize);
+                    }
+                    "all" => {
+                        got_ix = Some(self.it.all(|e| { drop(e); c += 1; c != j + 1 }) as usize);
+                        want_ix = Some(self.rf.all(|_| { c2 += 1; c2 != j + 1 }) as usize);
+                    }
+                    "try_fold" => {
+                        got_ix = self.it.try_fold(0usize, |acc, e| { drop(e); if acc == j { None } else { Some(acc + 1) } });
+                        want_ix = self.rf.try_fold(0usize, |acc, _| if acc == j { None } else { Some(acc + 1) });
+                    }
+                    "try_rfold" => {
+                        got_ix = self.it.try_rfold(0usize, |acc, e| { drop(e); if acc == j { None } else { Some(acc + 1) } });
+                        want_ix = self.rf.try_rfold(0usize, |acc, _| if acc == j { None } else { Some(acc + 1) });
+                    }
+                    "take" => {
+                        let g: Vec<u32> = self.it.by_ref().take(j).map(|e| e.ident()).collect();
+                        let w: Vec<u32> = self.rf.by_ref().take(j).map(idof).collect();
+                        if g != w {
+                            return Err(format!("by_ref().take({j}) yielded {g:?}, expected {w:?}"));
+                        }
+                    }
+                    "rev_nth" => {
+                        got_el = self.it.by_ref().rev().nth(j);
+                        want_el = self.rf.by_ref().rev().nth(j);
+                    }
+                    "for_break" => {
+                        // a `for` loop left early
+                        for e in &mut self.it {
+                            c += 1;
+                            drop(e);
+                            if c == j + 1 {
+                                break;
+                            }
+                        }
+                        for _ in &mut self.rf {
+                            c2 += 1;
+                            if c2 == j + 1 {
+                                break;
+                            }
+                        }
+                    }
+                    _ => by_ref = false,
+                }
+                if by_ref {
+                    let g = got_el.as_ref().map(|e| e.ident());
+                    let w = want_el.map(idof);
+                    if g != w || got_ix != want_ix {
+                        return Err(format!("{name}({j}) returned {:?}, std's array iterator returns {:?}", (g, got_ix), (w, want_ix)));
+                    }
+                    self.dq = self.rf.as_slice().iter().copied().collect();
+                    self.ledger(g).map_err(|e| format!("after {name}({j}) with its result held: {e}"))?;
+                    drop(got_el);
+                    self.check_view().map_err(|e| format!("after {name}({j}): {e}"))?;
+                    drop(self.it);
+                    nothing_live("dropping the iterator afterwards")?;
+                    return Ok(format!("T:pm:{name}:{}", if n == 0 { "empty" } else { "nonempty" }));
+                }
+                // consuming methods: result compared, then nothing may be left
+                let (g, w): (Vec<u32>, Vec<u32>) = match name {
+                    "reduce" => (
+                        self.it.reduce(|a, b| { drop(a); b }).map(|e| e.ident()).into_iter().collect(),
+                        self.rf.reduce(|_, b| b).map(idof).into_iter().collect(),
+                    ),
+                    "max_by_key" => (
+                        self.it.max_by_key(|e| e.ident()).map(|e| e.ident()).into_iter().collect(),
+                        self.rf.max_by_key(|&s| idof(s)).map(idof).into_iter().collect(),
+                    ),
+                    "min_by_key" => (
+                        self.it.min_by_key(|e| e.ident()).map(|e| e.ident()).into_iter().collect(),
+                        self.rf.min_by_key(|&s| idof(s)).map(idof).into_iter().collect(),
+                    ),
+                    "partition" => {
+                        let (x, y): (Vec<E>, Vec<E>) = self.it.partition(|_| { c += 1; c % 2 == 0 });
+                        let (xs, ys): (Vec<usize>, Vec<usize>) = self.rf.partition(|_| { c2 += 1; c2 % 2 == 0 });
+                        let mut g: Vec<u32> = x.iter().map(|e| e.ident()).collect();
+                        g.push(u32::MAX);
+                        g.extend(y.iter().map(|e| e.ident()));
+                        let mut w: Vec<u32> = xs.into_iter().map(idof).collect();
+                        w.push(u32::MAX);
+                        w.extend(ys.into_iter().map(idof));
+                        (g, w)
+                    }
+                    "step_by" => (self.it.step_by(j + 1).map(|e| e.ident()).collect(), self.rf.step_by(j + 1).map(idof).collect()),
+                    "skip" => (self.it.skip(j).map(|e| e.ident()).collect(), self.rf.skip(j).map(idof).collect()),
+                    "skip_rev" => (self.it.skip(j).rev().map(|e| e.ident()).collect(), self.rf.skip(j).rev().map(idof).collect()),
+                    "skip_while" => (
+                        self.it.skip_while(|_| { c += 1; c <= j }).map(|e| e.ident()).collect(),
+                        self.rf.skip_while(|_| { c2 += 1; c2 <= j }).map(idof).collect(),
+                    ),
+                    "take_while" => (
+                        self.it.take_while(|_| { c += 1; c <= j }).map(|e| e.ident()).collect(),
+                        self.rf.take_while(|_| { c2 += 1; c2 <= j }).map(idof).collect(),
+                    ),
+                    "chain_rev" => (
+                        self.it.rev().chain(core::iter::empty()).map(|e| e.ident()).collect(),
+                        self.rf.rev().chain(core::iter::empty()).map(idof).collect(),
+                    ),
+                    "unzip" => {
+                        let (x, y): (Vec<u32>, Vec<E>) = self.it.map(|e| (e.ident(), e)).unzip();
+                        let w: Vec<u32> = self.rf.map(idof).collect();
+                        let yy: Vec<u32> = y.iter().map(|e| e.ident()).collect();
+                        if x != yy {
+                            return Err(format!("unzip gave {x:?} and {yy:?}"));
+                        }
+                        (x, w)
+                    }
+                    _ => return Err(format!("harness: unknown provided method {name}")),
+                };
+                if g != w {
+                    return Err(format!("{name}({j}) gave {g:?}, std's array iterator gives {w:?}"));
+                }
+                nothing_live(name)?;
+                return Ok(format!("T:pm:{name}:{}", if n == 0 { "empty" } else { "nonempty" }));
+            }
+            _ if t.starts_with("clonefrom=") => {
+                // `Clone::clone_from` into an iterator that is itself part-consumed (front f, back b): afterwards the
+                // destination is a clone of the source - same remaining elements - and the source is undisturbed
+                let fb: Vec<usize> = t["clonefrom=".len()..].split('.').filter_map(|x| x.parse().ok()).collect();
+                let (f, b) = (fb[0], fb[1]);
+                let arr: [E; K] = core::array::from_fn(|_| E::make());
+                let mut dst = GenericArray::<E, ConstArrayLength<K>>::from_array(arr).into_iter();
+                for _ in 0..f {
+                    drop(dst.next());
+                }
+                for _ in 0..b {
+                    drop(dst.next_back());
+                }
+                dst.clone_from(&self.it);
+                // the destination's old elements are gone, the source's are all there, the clones are alive
+                self.check_view_with_clone(&dst).map_err(|e| format!("after clone_from into an iterator at front {f}, back {b}: {e}"))?;
+                if dst.len() != n || dst.as_slice().len() != n {
+                    return Err(format!("after clone_from the destination has len {} / lists {}, the source has {n}", dst.len(), dst.as_slice().len()));
+                }
+                for (j, (c, o)) in dst.as_slice().iter().zip(self.it.as_slice()).enumerate() {
+                    if !c.is_clone_of(o) {
+                        return Err(format!("after clone_from, remaining element {j} of the destination is not a clone of the source's"));
+                    }
+                }
+                drop(self.it);
+                let v: Vec<E> = dst.collect();
+                let ids: Vec<u32> = v.iter().map(|e| e.ident()).collect();
+                if v.len() != n {
+                    return Err(format!("the destination of clone_from yielded {} elements, expected {n}", v.len()));
+                }
+                let (live, z) = E::live_of(&ids);
+                ledger::check_exact(&live, z).map_err(|e| format!("elements yielded by the destination of clone_from: {e}"))?;
+                drop(v);
+                nothing_live("clone_from + drop")?;
+                return Ok(format!("T:clonefrom:{}", if n == 0 { "empty" } else { "nonempty" }));
+            }
             _ if t.starts_with("foldpanic=") || t.starts_with("rfoldpanic=") => {
                 // the folding closure unwinds at its k-th call: whatever was consumed by then and whatever was not
                 // must not overlap — every element is released exactly once (by the closure, by the unwinding or by
@@ -633,6 +820,44 @@ where
                 let o = s.terminal(t)?;
                 Ok(CaseInfo::new(K > 0 && len > 0, o))
             });
+        }
+        {
+            // provided methods (see `pm:` in `terminal`)
+            let js: Vec<usize> = if len <= 8 { (0..=len + 1).collect() } else { let mut v = vec![0, 1, len / 2, len - 1, len, len + 1]; v.sort(); v.dedup(); v };
+            let mut pms: Vec<String> = ["reduce", "max_by_key", "min_by_key", "partition", "chain_rev", "unzip"].iter().map(|m| format!("pm:{m}")).collect();
+            for &j in &js {
+                for m in ["find", "rfind", "position", "rposition", "any", "all", "try_fold", "try_rfold", "take", "rev_nth", "for_break", "step_by", "skip", "skip_rev", "skip_while", "take_while"] {
+                    pms.push(format!("pm:{m}={j}"));
+                }
+            }
+            for t in pms {
+                ctx.case_unsharded(&format!("{prefix}h={hs};term={t}"), || {
+                    let s = build::<E, K>(&hist)?;
+                    let o = s.terminal(&t)?;
+                    Ok(CaseInfo::new(K > 0 && len > 0, o))
+                });
+            }
+        }
+        {
+            // destinations of clone_from: every (front, back) position for K <= 4, a position lattice otherwise
+            let mut fbs: Vec<(usize, usize)> = Vec::new();
+            if K <= 4 {
+                for f in 0..=K {
+                    for b in 0..=K - f {
+                        fbs.push((f, b));
+                    }
+                }
+            } else {
+                fbs.extend([(0, 0), (1, 0), (0, 1), (1, 1), (K / 2, 0), (K, 0), (0, K), (K - 1, 1), (2, K - 3)]);
+            }
+            for (f, b) in fbs {
+                let t = format!("clonefrom={f}.{b}");
+                ctx.case_unsharded(&format!("{prefix}h={hs};term={t}"), || {
+                    let s = build::<E, K>(&hist)?;
+                    let o = s.terminal(&t)?;
+                    Ok(CaseInfo::new(K > 0, o))
+                });
+            }
         }
         if len > 0 {
             let mut ks = vec![0, len / 2, len - 1];
